@@ -1,6 +1,7 @@
 import LsModel.Txn
 import LsModel.CleanerOracle
 import LsModel.SyncLoop
+import LsModel.Receiver
 /-
   State the driver threads from one protocol line to the next. One field per stateful component;
   stateless operations ignore it.
@@ -21,6 +22,8 @@ structure DrvState where
   envs : List (String × Inst) := []
   loops : List (String × LoopInst) := []
   bucket : SyncLoop.Bucket := []
+  /-- the receiver model (C16), instances named by strings -/
+  recv : Option (Recv.St String) := none
 
 /-- a stateful handler: `none` = not my op / malformed arguments -/
 abbrev HandlerS := String → List String → DrvState → Option (DrvState × String)
